@@ -5,7 +5,7 @@
    exception classes and instances.  Used for the correspondence check (model vs implementation) and for the
    machine-checked witnesses; the theorems of Py/ hold for EVERY instance, not just this one. *)
 From Coq Require Import String Ascii List ZArith Bool Arith.
-From DV Require Import Base.Util Engine.Dispatch Py.Syntax Py.Sem Concrete.CVal.
+From DV Require Import Base.Util Engine.Dispatch Py.Syntax Py.Ops Py.Sem Concrete.CVal.
 Import ListNotations.
 Open Scope string_scope.
 Open Scope list_scope.
@@ -86,7 +86,8 @@ Definition tyname (v : val) : string :=
   | VList _ => "list" | VTuple _ => "tuple" | VFn _ => "builtin_function_or_method" | VClo _ => "function"
   | VExcCls _ => "type" | VExc c _ => c | VIter _ => "list_iterator"
   end.
-Definition model_limit {A} (what : string) (w : world) : pres val A * world := (PRaise (exc "ModelLimit" what), w).
+Definition model_limit {A} (what : string) (w : world) : pres val A * world :=
+  (PRaise (exc "ModelLimit" what), logw ["MODEL_LIMIT"; what] w).
 
 Definition as_int (v : val) : option Z := match v with VInt z => Some z | VBool b => Some (if b then 1 else 0)%Z | _ => None end.
 
@@ -253,7 +254,7 @@ Definition c_getitem (b i : val) (w : world) : pres val val * world :=
 Definition c_setitem (b i v : val) (w : world) : pres val unit * world :=
   match b with
   | VRec j => (POk tt, logw ["setitem"; nat2s j; showw w i; showw w v] w)
-  | _ => (PRaise (exc "ModelLimit" "item assignment on a non-recorder"), w)
+  | _ => (PRaise (exc "ModelLimit" "item assignment on a non-recorder"), logw ["MODEL_LIMIT"; "setitem"] w)
   end.
 
 Definition set_truth (i : nat) (b : bool) (w : world) : world :=
@@ -271,13 +272,13 @@ Definition c_call (f : val) (args : list val) (w : world) : pres val val * world
     | (POk b, _) =>
       let '(v, w1) := fresh w in
       (POk v, logw ["new"; nat2s (S (nextrec w)); if b then "True" else "False"] (set_truth (S (nextrec w)) b w1))
-    | _ => (PRaise (exc "ModelLimit" "r(arg)"), w)
+    | _ => (PRaise (exc "ModelLimit" "r(arg)"), logw ["MODEL_LIMIT"; "r"] w)
     end
   | VFn "len", [VList l] | VFn "len", [VTuple l] => (POk (VInt (Z.of_nat (length l))), w)
   | VRec i, _ =>
     let '(v, w1) := fresh (logw ["call"; nat2s i; ("(" ++ sjoin "," (map (showw w) args) ++ ")")%string; "()"] w) in (POk v, w1)
   | VExcCls c, _ => (POk (VExc c args), w)
-  | _, _ => (PRaise (exc "ModelLimit" ("call of " ++ showw w f)), w)
+  | _, _ => (PRaise (exc "ModelLimit" ("call of " ++ showw w f)), logw ["MODEL_LIMIT"; "call"] w)
   end.
 
 Definition new_iter (l : list val) (w : world) : val * world :=
@@ -306,7 +307,7 @@ Definition c_next (it : val) (w : world) : pres val (option val) * world :=
   | VIter i =>
     let '(o, m) := iter_pop i (iters w) in
     (POk o, {| log := log w; nextrec := nextrec w; truths := truths w; attrs := attrs w; iters := m; nextiter := nextiter w; fnames := fnames w |})
-  | _ => (PRaise (exc "ModelLimit" "next of a non-iterator"), w)
+  | _ => (PRaise (exc "ModelLimit" "next of a non-iterator"), logw ["MODEL_LIMIT"; "next"] w)
   end.
 
 (* the small class hierarchy the programs use *)
@@ -319,7 +320,7 @@ Definition subclass (c d : string) : bool :=
 Definition c_exc_match (e cls : val) (w : world) : pres val bool * world :=
   match e, cls with
   | VExc c _, VExcCls d => (POk (subclass c d), w)
-  | _, _ => (PRaise (exc "ModelLimit" "except clause"), w)
+  | _, _ => (PRaise (exc "ModelLimit" "except clause"), logw ["MODEL_LIMIT"; "except"] w)
   end.
 
 Definition c_const (k : const) : val :=
